@@ -57,6 +57,10 @@ func genTrial(prop, variant string, seed uint64, i int) TrialCfg {
 			c.Churn = 300 + r.Intn(2500)
 			c.InitCap = 0
 		}
+		if r2 := core.NewRng(core.Derive(seed, core.StrLabel("C02stampede"), core.StrLabel(variant), uint64(i))); c.Churn > 0 && r2.Chance(1, 3) {
+			// several churn goroutines fill the table at the same moment: several of them decide to grow it at once
+			c.ChurnG = 6 + r2.Intn(12)
+		}
 		// keep each key's history small enough for the checker
 		for c.G*c.Ops/c.Keys > 150 {
 			c.Ops = c.Ops * 2 / 3
